@@ -12,7 +12,8 @@ from . import core, kitchen, p21model as pm, schemas
 FEATURE_P = {
     "selects": 0.85, "enums": 0.9, "agg_types": 0.8, "nested_agg": 0.8, "multi_inherit": 0.7, "andor": 0.7,
     "derived_redecl": 0.7, "binary": 0.8, "logical": 0.8, "array": 0.8, "select_of_select": 0.6, "unique": 0.5,
-    "cxx_keywords": 0.4, "renamed_types": 0.5, "renamed_enum": 0.12,       # open finding C01-K4 "explicit_redecl": 0.5, "and_expr": 0.4,
+    "cxx_keywords": 0.4, "renamed_types": 0.5, "explicit_redecl": 0.5, "and_expr": 0.4,
+    "renamed_enum": 0.12,       # open finding C01-K4
     "mixed_expr": 0.4, "agg_in_select": 0.4,
     "renamed_select": 0.12,     # open finding C01-K3
     "inverse": 0.0,
